@@ -124,6 +124,24 @@ def runQueue (q : CQ Nat) : List String → List String
       | some id => runQueue (q.add id) rest
       | none => ["bad-op"]
 
+/-- `queuelong <cap> <n>`: additions 0 … n-1 with a snapshot after each number of additions
+    listed in `checkpoints`. -/
+def queueCheckpoints (n : Nat) : List Nat :=
+  let ks := (List.range 18).filter (· ≥ 3)
+  ((ks.map (fun k => [2 ^ k - 1, 2 ^ k, 2 ^ k + 1])).flatten ++ [n]).filter (· ≤ n)
+
+def runQueueLong (cap : Int) (n : Nat) : String :=
+  let cps := queueCheckpoints n
+  let rec go (i : Nat) (fuel : Nat) (q : CQ Nat) (acc : List String) : List String :=
+    match fuel with
+    | 0 => acc.reverse
+    | fuel + 1 =>
+      let q := q.add i
+      let added := i + 1
+      let acc := if cps.contains added then s!"{added}:[{joinWith "," (q.get.map toString)}]" :: acc else acc
+      go (i + 1) fuel q acc
+  joinWith " " (go 0 n (CQ.new cap) [])
+
 def parseReadItems : List String → Option (List ReadRes)
   | [] => some []
   | t :: rest =>
@@ -180,6 +198,10 @@ def handle : List String → String
     match parseHex h with
     | some b => "text " ++ toHex ((sanitise (b.map (fun x => Char.ofNat x.toNat))).map (fun c => UInt8.ofNat c.toNat))
     | none => "bad-op"
+  | ["queuelong", cap, n] =>
+    match cap.toInt?, n.toNat? with
+    | some c, some n => runQueueLong c n
+    | _, _ => "bad-op"
   | "queue" :: cap :: ops =>
     match cap.toInt? with
     | some c => joinWith " " (runQueue (CQ.new c) ops)
